@@ -73,8 +73,8 @@ def Rodas(dae: nDAE,
     t0 = tspan[0]
     if t0 > tend:
         raise ValueError(f't0: {t0} > tend: {tend}')
-    if opt.hmax is None:
-        opt.hmax = np.abs(tend - t0)
+    hmax = np.abs(tend - t0) if opt.hmax is None else opt.hmax
+    facmax = opt.facmax
     nt = 0
     t = t0
     hmin = 16 * np.spacing(t0)
@@ -114,7 +114,7 @@ def Rodas(dae: nDAE,
         dt = opt.hinit
 
     dt = np.maximum(dt, hmin)
-    dt = np.minimum(dt, opt.hmax)
+    dt = np.minimum(dt, hmax)
 
     M = dae.M
     p = dae.p
@@ -184,7 +184,7 @@ def Rodas(dae: nDAE,
                 print('Warning Rodas: NaN or Inf occurs.')
             err = np.maximum(err, 1.0e-6)
             fac = opt.f_savety / (err ** (1 / rparam.pord))
-            fac = np.minimum(opt.facmax, np.maximum(opt.fac1, fac))
+            fac = np.minimum(facmax, np.maximum(opt.fac1, fac))
             dtnew = dt * fac
         else:
             err = 1.0
@@ -301,13 +301,13 @@ def Rodas(dae: nDAE,
             if np.abs(tend - t) < uround or stop:
                 done = True
             y0 = ynew
-            opt.facmax = opt.fac2
+            facmax = opt.fac2
 
         else:
             reject = reject + 1
             stats.nreject = stats.nreject + 1
-            opt.facmax = 1
-        dt = np.min([opt.hmax, np.max([hmin, dtnew])])
+            facmax = 1
+        dt = np.min([hmax, np.max([hmin, dtnew])])
 
     T = T[0:nt + 1]
     Y = Y[0:nt + 1]
